@@ -440,3 +440,74 @@ func restoreCase(r *vh.RNG) *testCase {
 	}
 	return c
 }
+
+// logCase: the first log of a transaction is emitted inside a frame that fails; a surviving frame logs afterwards and
+// the next transaction logs too. Logs, their block-wide Index and the state's log counter after the failed frame
+// must be what they were before it.
+func logCase(r *vh.RNG) *testCase {
+	c := &testCase{}
+	a, l1, l2 := addrN(0xc100), addrN(0xc101), addrN(0xc102)
+	lg := func() step {
+		s := step{op: 'L'}
+		for k := r.Intn(3); k > 0; k-- {
+			s.topics = append(s.topics, uint64(r.Range(1, 99)))
+		}
+		return s
+	}
+	fail := func() step {
+		switch r.Intn(5) {
+		case 0:
+			return step{op: 'I', n: uint64(r.Intn(4))}
+		case 1:
+			return step{op: 'S'} // control: the log survives
+		default:
+			return step{op: 'V'}
+		}
+	}
+	kind := func() string { return []string{"c", "cc", "d"}[r.Intn(3)] }
+	inner := []step{lg()}
+	if r.Chance(30) {
+		inner = append(inner, lg())
+	}
+	inner = append(inner, fail())
+	var mid []step
+	if r.Chance(30) {
+		mid = append(mid, lg())
+	}
+	mid = append(mid, step{op: 'C', kind: kind(), addr: l2, gas: 200000}, fail())
+	var body []step
+	if r.Chance(15) {
+		body = append(body, lg()) // then the undone log is not the first one
+	}
+	for n := r.Range(1, 2); n > 0; n-- {
+		t := l2
+		if r.Chance(35) {
+			t = l1
+		}
+		g := uint64(200000)
+		if r.Chance(15) {
+			g = uint64(r.Range(300, 3000)) // runs out around the LOG
+		}
+		body = append(body, step{op: 'C', kind: kind(), addr: t, gas: g})
+	}
+	if r.Chance(85) {
+		body = append(body, lg())
+	}
+	body = append(body, []step{{op: 'S'}, {op: 'S'}, {op: 'S'}, {op: 'V'}}[r.Intn(4)])
+	acct := func(ad common.Address, b []step) *account {
+		return &account{addr: ad, nonce: 1, bal: uint64(r.Intn(20)), storage: map[uint64]uint64{}, body: b}
+	}
+	c.accts = append(c.accts,
+		&account{addr: originA, bal: 1000000000, storage: map[uint64]uint64{}},
+		&account{addr: plainRich, nonce: 1, bal: 777, storage: map[uint64]uint64{}},
+		acct(a, body), acct(l1, mid), acct(l2, inner))
+	c.extra = []common.Address{ghostA, ghostB}
+	for n := r.Range(2, 3); n > 0; n-- {
+		to := a
+		if r.Chance(20) {
+			to = l1
+		}
+		c.txs = append(c.txs, tx{origin: originA, to: to, gas: uint64([]int{90000, 300000, 1000000}[r.Intn(3)])})
+	}
+	return c
+}
